@@ -191,6 +191,9 @@ func (h *handshake) release() {
 	h.remoteAck.Error = 0
 	h.remoteCred.Type = 0
 	h.remoteCred.Payload = h.remoteCred.Payload[:0]
+	// version fields are absent from the wire when zero: a leftover would be taken for the next peer's
+	h.remoteCred.Version = 0
+	h.remoteCred.ClientVersion = ""
 	h.remoteProto.Proto = 0
 	h.remoteProto.Encodings = h.remoteProto.Encodings[:0]
 	handshakePool.Put(h)
